@@ -6,22 +6,6 @@ fn actor(b: u8) -> ActorId {
     ActorId(Uuid::from_bytes([b; 16]))
 }
 
-/// broadcast path: a decoded payload is forwarded for processing ⟺ its cluster id equals ours
-#[kani::proof]
-#[kani::unwind(4)]
-fn c16_uni_payload_forwarded_iff_same_cluster() {
-    let ours = ClusterId(kani::any());
-    let theirs = ClusterId(kani::any());
-    let payload = UniPayload::V1 { data: UniPayloadV1::Broadcast(BroadcastV1::Change(ChangeV1 { tag: kani::any() })), cluster_id: theirs };
-    let mut changes: Vec<(ChangeV1, ChangeSource)> = Vec::new();
-    let r = uni_payload_filter(payload, ours, &mut changes);
-    assert!((changes.len() == 1) == (ours.0 == theirs.0), "C16: a broadcast from another cluster was forwarded for processing (or a same-cluster one dropped)");
-    assert!(changes.len() <= 1);
-    kani::cover!(changes.len() == 1, "forwarded");
-    kani::cover!(changes.is_empty(), "dropped");
-    core::mem::forget(changes);
-}
-
 /// a frame that ends before the cluster field decodes with cluster id 0 (older peers), and a
 /// frame that carries it decodes to exactly that id
 #[kani::proof]
@@ -129,4 +113,50 @@ fn c16_sync_partners_and_broadcast_targets_same_cluster() {
     kani::cover!(target.is_some(), "target chosen");
     kani::cover!(target.is_none() && id != me, "member of another cluster skipped");
     core::mem::forget((pending, ring0));
+}
+
+/// the whole per-stream loop of the broadcast receiver: for every stream of up to 3 frames (any
+/// mix of frames declaring our cluster, another cluster, undecodable frames and io errors) the
+/// changes forwarded are exactly those of the frames that declare OUR cluster — whatever came
+/// before them on the same stream
+#[kani::proof]
+#[kani::unwind(5)]
+fn c16_uni_stream_forwards_only_own_cluster_frames() {
+    use unistream::{Frame, Framed};
+    let ours = ClusterId(kani::any());
+    let mut items: [Option<Result<Frame, unistream::DecodeError>>; 3] = [None, None, None];
+    let n: usize = kani::any();
+    kani::assume(n <= 3);
+    let mut expect = [false; 3];
+    let mut tags = [0u8; 3];
+    let mut i = 0;
+    while i < 3 {
+        if i < n {
+            if kani::any() {
+                let f = Frame { decodes: kani::any(), tag: i as u8, cluster: kani::any() };
+                expect[i] = f.decodes && f.cluster == ours.0;
+                tags[i] = f.tag;
+                items[i] = Some(Ok(f));
+            } else {
+                items[i] = Some(Err(unistream::DecodeError));
+            }
+        }
+        i += 1;
+    }
+    let framed = Framed { items, next: 0 };
+    let out = venv::task::block_on(unistream::uni_stream_frames(framed, ours));
+    // forwarded = exactly the expected frames, in arrival order
+    let mut k = 0;
+    let mut j = 0;
+    while j < 3 {
+        if expect[j] {
+            assert!(k < out.len(), "C16: a same-cluster broadcast frame was dropped");
+            assert!(out[k].0.tag == tags[j], "C16: a broadcast frame of another cluster was forwarded for processing");
+            k += 1;
+        }
+        j += 1;
+    }
+    assert!(out.len() == k, "C16: a broadcast frame of another cluster was forwarded for processing");
+    kani::cover!(k >= 1 && n == 3 && !expect[1], "own-cluster frames around a foreign one");
+    core::mem::forget(out);
 }
